@@ -110,6 +110,7 @@ class Run:
         lines = []
         nviol = 0
         nknown = 0
+        nskipped = 0
         os.makedirs(EVID, exist_ok=True)
         unreached = [k for k, v in self.must_reach.items() if not v]
         if unreached:
@@ -117,13 +118,17 @@ class Run:
         if not self.exhaustive:
             self.error("search not exhausted within its budget (inconclusive, not success)")
         for sig, f in self.failures.items():
-            listed = [k for k in known if k.get("property") == self.prop and k.get("status") == "known"
+            listed = [k for k in known if (k.get("property") == self.prop or self.prop in (k.get("also") or []))
+                      and k.get("status") == "known"
                       and (k.get("signature") == sig or
                            (k.get("signature_regex") and re.fullmatch(k["signature_regex"], sig)))]
             if listed:
                 nknown += 1
                 lines.append("KNOWN-FINDING: property=%s [%s] %s (%d failing paths)" % (
                     self.prop, listed[0].get("id", "?"), sig, f["count"]))
+                continue
+            if nviol >= 25:
+                nskipped += 1
                 continue
             payload = dict(f["payload"])
             payload.setdefault("property", self.prop)
@@ -150,6 +155,8 @@ class Run:
             else:
                 self.error("counterexample did not reproduce on the real code (engine/model error, not a finding): "
                            "%s :: %s" % (sig, text[:400]))
+        if nskipped:
+            lines.append("  (+%d further failing classes not replayed: 25 reproduced violations already reported)" % nskipped)
         if self.errors and rc == 0:
             rc = 2
         wall = time.time() - self.t0
